@@ -19,7 +19,7 @@ import vf
 
 MUTANTS = ["response-is-request", "no-stream-events", "constant-name", "ignores-updates-only", "no-initial-value",
            "rejected-update-writes", "get-ignores-mask", "get-writes", "other-delete-ends-streams",
-           "late-timer-overwrites"]
+           "late-timer-overwrites", "shared-event-filtered-in-place"]
 SOFT = "pull-initial-value-not-received-in-time"
 METHOD_RE = re.compile(r"^func \(\w+ \*?(\w+)\) (Get|Update|Pull)(\w*)\(", re.M)
 
@@ -136,7 +136,7 @@ def run(ctx):
     # (runs in the background while the histories are generated and replayed; joined before the trace check)
     mc_pool = ThreadPoolExecutor(max_workers=1)
     mc_future = mc_pool.submit(lambda: ctx.mc("StackMC", "StackMC.cfg", deadlock=False, workers=max(2, vf.NCPU // 2), timeout=3000,
-                                              consts={"NF": 2, "MaxId": 1, "MaxSteps": 5 if thorough else 3,
+                                              consts={"NF": 2, "MaxId": 1, "MaxSteps": 4 if thorough else 3,
                                                       "Mutants": "{%s}" % ", ".join('"%s"' % m for m in MUTANTS)}))
 
     # ---- Gen ----------------------------------------------------------------------------------------
@@ -268,6 +268,11 @@ def run(ctx):
         elif o["op"] == "Other":
             d["other_record_deleted_or_created"] = d.get("other_record_deleted_or_created", 0) + 1
         d["stream_deliveries_checked"] += sum(1 for s in o["streams"] if s["awaited"])
+        if o["op"] == "Update":
+            d["masked_stream_deliveries_checked"] = d.get("masked_stream_deliveries_checked", 0) + sum(
+                1 for s in o["streams"] if s["awaited"] and not s["mask"]["nil"])
+            masks = [json.dumps(s["mask"], sort_keys=True) for s in o["streams"]]
+            d["updates_with_streams_of_different_masks"] = d.get("updates_with_streams_of_different_masks", 0) + (len(set(masks)) > 1)
         if o["op"] == "OpenPull" and not o["mask"]["nil"]:
             d["masked_pulls"] = d.get("masked_pulls", 0) + 1
         if "between" in o["note"] and o["op"] == "Update":
@@ -275,7 +280,7 @@ def run(ctx):
         nontrivial = (o["op"] in ("Update", "Other", "TimedUpdate", "Wait")) or (o["op"] == "OpenPull" and not o["mask"]["nil"]) or (o["op"] == "Get" and not o["mask"]["nil"]) or any(s["awaited"] for s in o["streams"])
         if nontrivial:
             ctx.distinct((o["tgt"], o["op"], o["code"], o["mask"], o["val"], changed, o["pre"]["v"] == o["post"]["v"],
-                          [(s["uo"], s["fresh"], s["quiet"], s["opened"], len(s["msgs"])) for s in o["streams"]]))
+                          [(s["uo"], s["fresh"], s["quiet"], s["opened"], len(s["msgs"]), s["mask"]) for s in o["streams"]]))
     ctx.cov["per_target"] = per_target
     for o in obs[:1] + obs[len(obs) // 2: len(obs) // 2 + 2] + obs[-1:]:
         ctx.sample(o)
@@ -303,14 +308,14 @@ def run(ctx):
 MANIFEST = {
     "engine": "spec/Stack.tla + StackMC/StackGen/StackTrace.tla (TLC) + harness 'stackx'",
     "technique": "TLA+ relations between client observations of a register behind Wrap(router(Wrap(server))); TLC MC of a "
-                 "reference register with streams (relations hold, 10 seeded defects rejected); TLC-generated client histories "
+                 "reference register with streams (relations hold, 11 seeded defects rejected); TLC-generated client histories "
                  "replayed on every trait server found in the tree; TLC validates every recorded step",
     "text": "Stack.tla states what the property text demands of one client step given the unmasked Get before and after: "
             "a successful Update's response is the next Get; a masked Get is the projection of the unmasked one; a new Pull "
             "starts with the current value unless updates-only (an updates-only stream must not start with it); an Update whose "
             "response differs from the value before appears on every open stream with the response's value and the Pull "
             "request's name; a rejected (or crashing) Update leaves Get unchanged; a panic is never an answer. TLC checks these "
-            "relations on a reference machine whose server side is as free as the text leaves it and shows each of 10 seeded "
+            "relations on a reference machine whose server side is as free as the text leaves it and shows each of 11 seeded "
             "defects is rejected. TLC then prints random histories; stackx builds, per server of its registry (16 constructions "
             "of 14 server types in 13 packages, compared on every run with a scan of pkg/trait), the package's own "
             "WrapApi(NewApiRouter{2 names -> WrapApi(server)}) stack, drives it by full method name with requests built through "
